@@ -52,13 +52,17 @@
        four requests above, which may succeed when DetFiles fails), models, files and all live nodes stay as they were.
      C03_stale_live_histories2: hence along every op2 history from the empty world, loads and all other known classes
        included, outside Known_load_shared: stale handles cannot change the live model, and all place-dependent
-       requests except the four fail without any change. *)
+       requests except the four fail without any change.
+   HEADLINE: C03_histories2_headline — the property text as one statement over op2 histories from the empty world
+     outside Known_load_shared: Core (well-formed tree), sub_elements / parent / position agree, elements_dfs = the
+     reachable elements once each in pre-order, the sub-element iterator = the content list, stale handles cannot
+     change the live model (and fail for all place-dependent requests but the four min_version-only ones). *)
 From AV Require Import Base.Bytes Base.Outcome Hash.HashModel Tree.Heap Tree.Ops Tree.Script Tree.Inv Tree.Iter
   Tree.InvProofsTree Tree.InvProofsNav Tree.InvProofs Tree.StaleProofs Tree.IterProofs Tree.IterProofsFile
   Tree.InvProofsDetFiles Tree.InvProofsDetFilesMain Tree.InvProofsOp2 Tree.InvExamples
   Tree.InvProofsChars Tree.InvProofsChars5 Tree.InvProofsOrigins3 Tree.InvProofsReal Tree.InvProofsRealTables Spec.SpecReal.
 From AV Require Import Tree.Script2 Tree.InvLoad Tree.InvProofsOp2Full Tree.InvProofsLoadExamples Tree.InvProofsOp2Lift
-  Tree.InvProofsOp2Real Tree.InvEBase Tree.InvProofsLoadLive Tree.InvProofsOp2Live Tree.InvProofsOp2Rej Tree.InvE_Main Tree.InvL_Base Tree.InvL_Main Tree.InvL_Op2 Tree.InvProofsStale2 Tree.InvProofsStale2Examples Tree.InvProofsStale3.
+  Tree.InvProofsOp2Real Tree.InvEBase Tree.InvProofsLoadLive Tree.InvProofsOp2Live Tree.InvProofsOp2Rej Tree.InvE_Main Tree.InvL_Base Tree.InvL_Main Tree.InvL_Op2 Tree.InvProofsStale2 Tree.InvProofsStale2Examples Tree.InvProofsStale3 Tree.InvProofsHeadline.
 From AV Require Xml.TablesOk.
 From AV Require Tree.Load Tree.MergeSpec Tree.LoadProofsRefuted.
 Open Scope string_scope.
@@ -644,6 +648,27 @@ Theorem C03_stale_live_histories2 :
     Inv.run T tab_el tab_en check_fn LATEST root_attrs o w = Val (r, w') ->
     live_eq w w' /\ (place_dependent o = true -> needs_version_only o = false -> w' = w /\ failed r).
 Proof. exact stale_live_histories2. Qed.
+
+Theorem C03_histories2_headline :
+  forall (T : tables) (tab_el tab_at tab_en : nametab) (check_fn : N -> list N -> res bool)
+         (float_parse : list N -> option N) (float_fmt : N -> list N)
+         (LATEST name_index name_definition_ref attr_schema_location : N) (root_attrs : list (N * cdata))
+         (l : list op2) (w : world),
+    run_ops2 T tab_el tab_at tab_en check_fn float_parse float_fmt LATEST name_index name_definition_ref
+      attr_schema_location root_attrs l empty_world = Val w ->
+    clean_shared_ops2 T tab_el tab_at tab_en check_fn float_parse float_fmt LATEST name_index
+      name_definition_ref attr_schema_location root_attrs l empty_world = true ->
+    Core w /\
+    (forall p c, lists w p c -> par w c p /\ exists k, q_position c w = Val (OK (Some k), w)) /\
+    (forall i, allocated w i ->
+       exists l f0, (forall f, (f0 <= f)%nat -> elements_dfs f i 0 w = Val l) /\
+                    Pre w i (map snd l) /\ NoDup (map snd l) /\ forall x, In x (map snd l) <-> Reach w i x) /\
+    (forall e n, w_nodes w e = Some n ->
+       forall f, (List.length (kids n) + 1 <= f)%nat -> ei_drain f (ei_new e) w = Val (kids n)) /\
+    (forall o h r w', Detached w h -> principal o = Some h ->
+       Inv.run T tab_el tab_en check_fn LATEST root_attrs o w = Val (r, w') ->
+       live_eq w w' /\ (place_dependent o = true -> needs_version_only o = false -> w' = w /\ failed r)).
+Proof. exact headline_histories2. Qed.
 
 (* ---------- the finding: an error after the point of no return leaves an orphan ---------- *)
 Theorem C03_failed_reparent_refuted :
